@@ -124,6 +124,8 @@ def instance_writes(fn_node):
                     out.append((n, 'self.%s is assigned' % self_attr(x)))
                 elif isinstance(x, ast.Subscript) and self_attr(x.value):
                     out.append((n, 'an entry of self.%s is written' % self_attr(x.value)))
+                elif isinstance(x, ast.Attribute) and self_attr(x.value):
+                    out.append((n, 'self.%s .%s is assigned (an attribute of the object that field refers to)' % (self_attr(x.value), x.attr)))
         if isinstance(n, ast.Call) and isinstance(n.func, ast.Attribute) and n.func.attr in MUTATORS and self_attr(n.func.value):
             out.append((n, 'self.%s.%s(...) mutates a field' % (self_attr(n.func.value), n.func.attr)))
     return out
@@ -362,3 +364,29 @@ def import_clauses(ctx, res, src_prop, src_clauses, prop, cid, kind, title, floo
                 continue          # a recorded known finding is reported (as KNOWN-FINDING) by the property it is listed under
             res.add(Finding(prop, cid, f.kind, f.file, f.func, f.line, f.construct, f.message, witness=f.witness, entry=f.entry, exit=f.exit))
     return c
+
+
+# ---------------------------------------------------------------------------------------------------------------------
+# one-shot iterators captured by a closure that runs many times
+# ---------------------------------------------------------------------------------------------------------------------
+ONE_SHOT = {'filter', 'map', 'zip', 'iter', 'reversed', 'enumerate', 'chain', 'islice', 'ifilter', 'imap', 'izip'}
+
+
+def one_shot_captures(outer_node, inner_node):
+    """locals of outer_node bound to a lazily consumed iterator (filter / map / zip / generator expression ...) that inner_node,
+    a closure called any number of times, reads: the first call consumes them, later calls see them empty"""
+    out = []
+    inner_reads = {x.id for x in ast.walk(inner_node) if isinstance(x, ast.Name) and isinstance(x.ctx, ast.Load)}
+    inner_binds = {x.arg for x in ast.walk(inner_node) if isinstance(x, ast.arg)} | \
+        {x.id for x in ast.walk(inner_node) if isinstance(x, ast.Name) and isinstance(x.ctx, ast.Store)}
+    for n in walk_own(outer_node):
+        if isinstance(n, ast.Assign) and len(n.targets) == 1 and isinstance(n.targets[0], ast.Name):
+            v = n.value
+            leaves = [v]
+            if isinstance(v, ast.IfExp):
+                leaves = [v.body, v.orelse]
+            for lv in leaves:
+                lazy = isinstance(lv, ast.GeneratorExp) or (isinstance(lv, ast.Call) and norm(lv.func).split('.')[-1] in ONE_SHOT)
+                if lazy and n.targets[0].id in inner_reads and n.targets[0].id not in inner_binds:
+                    out.append((n, n.targets[0].id, norm(lv)[:80]))
+    return out
